@@ -57,7 +57,8 @@ type world struct {
 	e      *neotest.Executor
 	mgmt   util.Uint160
 	mgmtID int32
-	script []byte
+	script []byte // the interpreter alone: body of the entry scripts
+	cbOff  int    // offset of _deploy in the contracts' script
 	nef    *nef.File
 	nefB   []byte
 	gkeys  map[string]*keys.PrivateKey
@@ -84,7 +85,9 @@ func newWorld(t testing.TB) *world {
 	}
 	w.sAcc = neotest.NewSingleSigner(wallet.NewAccountFromPrivateKey(detKey("account-S")))
 	w.script = blob(w.mgmt)
-	ne, err := nef.NewFile(w.script)
+	cscript, off := contractScript(w.mgmt)
+	w.cbOff = off
+	ne, err := nef.NewFile(cscript)
 	if err != nil {
 		t.Fatal(err)
 	}
@@ -112,6 +115,7 @@ func (w *world) newGeneration() {
 	reg("P", w.e.Validator.ScriptHash())
 	reg("X", detKey("account-X").GetScriptHash())
 	reg("N", hash.Hash160([]byte("verif-c15dyn-no-such-contract")))
+	reg("M", w.mgmt)
 	for _, n := range contractNames {
 		reg(n, state.CreateContractHash(w.e.Validator.ScriptHash(), w.nef.Checksum, w.manifestName(n)))
 	}
@@ -123,7 +127,9 @@ func (w *world) manifestName(n string) string { return fmt.Sprintf("verif-c15dyn
 func (w *world) manifestOf(n string, groups []string) *manifest.Manifest {
 	m := manifest.DefaultManifest(w.manifestName(n))
 	m.ABI.Methods = []manifest.Method{{Name: "p", Offset: 0, ReturnType: smartcontract.VoidType,
-		Parameters: []manifest.Parameter{{Name: "r", Type: smartcontract.AnyType}, {Name: "prog", Type: smartcontract.AnyType}}}}
+		Parameters: []manifest.Parameter{{Name: "r", Type: smartcontract.AnyType}, {Name: "prog", Type: smartcontract.AnyType}}},
+		{Name: manifest.MethodDeploy, Offset: w.cbOff, ReturnType: smartcontract.VoidType,
+			Parameters: []manifest.Parameter{{Name: "data", Type: smartcontract.AnyType}, {Name: "update", Type: smartcontract.BoolType}}}}
 	h := w.hashes[n]
 	gs := append([]string{}, groups...)
 	sort.Strings(gs)
@@ -218,7 +224,8 @@ type Op struct {
 	C      string   // opCall*/opDeploy/opUpdate/opDestroy: contract name
 	RS     bool     // opCall*: the callee gets all call flags (else no ReadStates)
 	Groups []string // opUpdate / opDeploy
-	Sub    []*Op    // opCall*
+	Sub    []*Op    // opCall*; opUpdate / opDeploy with Cb: the program of _deploy
+	Cb     bool     // opUpdate / opDeploy: the contract's _deploy method runs Sub
 	Names  []string // opTab
 }
 
@@ -236,9 +243,9 @@ func (w *world) item(o *Op) stackitem.Item {
 		}
 		hd = append(hd, stackitem.NewByteArray(w.hashes[o.C].BytesBE()), bi(fl), w.progItem(o.Sub))
 	case opUpdate:
-		hd = append(hd, stackitem.NewByteArray(w.manifestBytes(o.C, o.Groups)))
+		hd = append(hd, stackitem.NewByteArray(w.manifestBytes(o.C, o.Groups)), w.cbItem(o))
 	case opDeploy:
-		hd = append(hd, stackitem.NewByteArray(w.nefB), stackitem.NewByteArray(w.manifestBytes(o.C, o.Groups)))
+		hd = append(hd, stackitem.NewByteArray(w.nefB), stackitem.NewByteArray(w.manifestBytes(o.C, o.Groups)), w.cbItem(o))
 	case opTab:
 		hs := make([]stackitem.Item, len(o.Names))
 		for i, n := range o.Names {
@@ -247,6 +254,13 @@ func (w *world) item(o *Op) stackitem.Item {
 		hd = append(hd, stackitem.NewArray(hs))
 	}
 	return stackitem.NewArray(hd)
+}
+
+func (w *world) cbItem(o *Op) stackitem.Item {
+	if !o.Cb {
+		return stackitem.Null{}
+	}
+	return w.progItem(o.Sub)
 }
 
 func (w *world) progItem(ops []*Op) stackitem.Item {
